@@ -91,6 +91,9 @@ type c01Case struct {
 	Flush     int32        `json:"flush"`
 	URLMode   string       `json:"url_mode"` // "" (gotapdance strips the type url) | full | tapdance
 	Source    int32        `json:"source"`
+	// bidirectional registration: the registrar's response (see zz_verif_c01_bidi_test.go); nil = the
+	// message carries no response
+	Bidi *c01Bidi `json:"bidi,omitempty"`
 }
 
 func (c *c01Case) applicable() *c01GenConf {
@@ -125,6 +128,8 @@ type c01Out struct {
 	Flight       []byte
 	ClientParams string // what the client put in the registration
 	Skip         string // non-empty: excluded class, nothing asserted beyond "no panic"
+	Refused      string // non-empty: the client library rejected the registrar's override (the client gives up)
+	NoLibPort    bool   // unchecked prefix override: the client library has no port of its own (GetDstPort gives 0)
 	Again        string // non-empty: the station derived something else from the same message the second time
 }
 
@@ -439,6 +444,22 @@ func c01Eval(env *c01Env, c *c01Case) (out c01Out, harnessErr error) {
 	} else if c.Transport == c01ref.Prefix && c.ParamMode == "omitted" {
 		out.Skip = "excluded:prefix-without-params" // the client library always sends prefix params
 	}
+	if c.Bidi != nil {
+		if s := c01BidiSkip(c); s != "" && out.Skip == "" {
+			out.Skip = s
+		}
+		func() {
+			defer c01Recover(&out.Client)
+			refused, err := c01BidiApplyClient(c, ct)
+			if err != nil {
+				harnessErr = err
+			}
+			out.Refused = refused
+		}()
+		if harnessErr != nil {
+			return out, harnessErr
+		}
+	}
 
 	// ---- reference ---------------------------------------------------------------------------------
 	refSeed, refStream, err := c01ref.Keys(c.LibVer, c.Secret)
@@ -495,6 +516,12 @@ func c01Eval(env *c01Env, c *c01Case) (out c01Out, harnessErr error) {
 	env.e.rm.PhantomSelector = sel
 	tt := c01TT[c.Transport]
 	w := c01BuildWrapper(c, params, !c.V6, c.V6)
+	ovAddr := c01BidiAddr(c, &out)
+	if c.Bidi != nil {
+		if err := c01BidiWrapper(c, w, ovAddr); err != nil {
+			return out, fmt.Errorf("building the registration response: %v", err)
+		}
+	}
 	w2 := proto.Clone(w).(*pb.C2SWrapper) // (the station rewrites the params' type url in place)
 	func() {
 		defer c01Recover(&out.Station)
@@ -576,18 +603,33 @@ func c01Eval(env *c01Env, c *c01Case) (out c01Out, harnessErr error) {
 		out.Client.Err = "n/a (station does not know the client's generation)"
 	}
 
+	// a phantom address in the registrar's response replaces the derived one on both sides
+	if ovAddr != nil {
+		if out.Ref.OK {
+			out.Ref.IP = append([]byte(nil), ovAddr...)
+		}
+		if out.Client.OK {
+			out.Client.IP = append([]byte(nil), ovAddr...)
+		}
+	}
+
 	// reference port needs the subnet's randomisation flag; for libver < 2 it is irrelevant (443)
-	if out.Ref.OK {
-		p, err := c01ref.Port(c.LibVer, c.Transport, c.prefixID(), c.asked(), out.Ref.Rand, refSeed)
+	if out.Ref.OK && out.Skip == "" {
+		p, err := c01ref.Port(c.LibVer, c.Transport, c.effPrefixID(), c.effAsked(), out.Ref.Rand, refSeed)
 		if err != nil {
 			return out, fmt.Errorf("reference port: %v", err)
 		}
 		out.Ref.Port = int(p)
+		if c.Bidi != nil && c.Bidi.DstPort != 0 {
+			out.Ref.Port = int(uint16(c.Bidi.DstPort))
+		}
 	}
-	if out.Client.OK && ct != nil && out.Client.Panic == "" {
+	if out.Client.OK && ct != nil && out.Client.Panic == "" && out.Refused == "" {
 		func() {
 			defer c01Recover(&out.Client)
 			switch {
+			case c.Bidi != nil && c.Bidi.DstPort != 0:
+				out.Client.Port = int(uint16(c.Bidi.DstPort)) // the dialer takes the port the registrar names
 			case c.LibVer < 3:
 				out.Client.Port = 443 // clients before port randomisation always dialled 443
 			case !out.Client.Rand:
@@ -600,6 +642,12 @@ func c01Eval(env *c01Env, c *c01Case) (out c01Out, harnessErr error) {
 					return
 				}
 				out.Client.Port = int(p)
+				if p == 0 && c.overrideApplies() && !c.Bidi.Checked && c.Transport == c01ref.Prefix {
+					// an unchecked prefix override leaves the library without a fixed port of its own (the
+					// dialer relies on dst_port): "not derived by this party"
+					out.Client.Port = -1
+					out.NoLibPort = true
+				}
 			}
 		}()
 	}
@@ -660,6 +708,9 @@ func c01Judge(env *c01Env, c *c01Case, o *c01Out) (classes []string, nontrivial 
 	}
 	for i := range viols {
 		k := viols[i].Key
+		if strings.Contains(k, ":bidi-override-") {
+			continue // decided by whose transport parameters are in force, not by the selection
+		}
 		if strings.HasPrefix(k, "select:") || strings.HasPrefix(k, "ip:") || strings.HasPrefix(k, "randflag:") || strings.HasPrefix(k, "port:") {
 			viols[i].Key = cause
 			viols[i].Msg = "generation with a weighted group that lists no subnets (clients ignore it and its weight): " + viols[i].Msg
@@ -707,6 +758,11 @@ func c01JudgeRaw(env *c01Env, c *c01Case, o *c01Out) (classes []string, nontrivi
 		classes = append(classes, o.Skip)
 		return
 	}
+	if o.Refused != "" {
+		// nothing to rendezvous with: the client library rejected the registrar's parameters
+		classes = append(classes, "excluded:client-refused-override")
+		return
+	}
 
 	app := c.applicable()
 	if app == nil {
@@ -740,8 +796,12 @@ func c01JudgeRaw(env *c01Env, c *c01Case, o *c01Out) (classes []string, nontrivi
 	if era == "hkdf" {
 		if o.Station.OK != o.Ref.OK || o.Client.OK != o.Ref.OK {
 			// a station failure that is not about selection is reported on its own key
-			add("select:"+era+":outcome", "selection outcome differs: station ok=%v (%s) client ok=%v (%s) reference ok=%v (%s)",
-				o.Station.OK, o.Station.Err, o.Client.OK, o.Client.Err, o.Ref.OK, o.Ref.Err)
+			sk := "select:" + era + ":outcome"
+			if m := c.bidiMode(); m != "" {
+				sk += ":" + m
+			}
+			add(sk, "selection outcome differs: station ok=%v (%s) client ok=%v (%s) reference ok=%v (%s)%s",
+				o.Station.OK, o.Station.Err, o.Client.OK, o.Client.Err, o.Ref.OK, o.Ref.Err, c.bidiDesc())
 			return
 		}
 		if !o.Ref.OK {
@@ -779,41 +839,57 @@ func c01JudgeRaw(env *c01Env, c *c01Case, o *c01Out) (classes []string, nontrivi
 	if leadingZero {
 		classes = append(classes, "excluded:leading-zero-address")
 	} else {
+		as, ad := "", ""
+		if c.Bidi != nil && c.Bidi.Addr != "" {
+			// the response names the phantom: both sides take it instead of deriving one
+			as = ":bidi-override-addr"
+			ad = fmt.Sprintf(" [bidirectional: the registrar's response names the phantom address (%s)]", c.Bidi.Addr)
+		}
 		sc := bytes.Equal(o.Station.IP, o.Client.IP)
 		if era == "hkdf" {
 			sr := bytes.Equal(o.Station.IP, o.Ref.IP)
 			cr := bytes.Equal(o.Client.IP, o.Ref.IP)
 			switch {
 			case sc && !sr:
-				add("ip:hkdf:both!=ref", "station and client agree on %s but the published algorithm selects %s", c01IPStr(o.Station.IP), c01IPStr(o.Ref.IP))
+				add("ip:hkdf:both!=ref"+as, "station and client agree on %s but the published algorithm selects %s%s", c01IPStr(o.Station.IP), c01IPStr(o.Ref.IP), ad)
 			case !sc && sr:
-				add("ip:hkdf:client!=station", "client selects %s, station (and reference) %s", c01IPStr(o.Client.IP), c01IPStr(o.Station.IP))
+				add("ip:hkdf:client!=station"+as, "client selects %s, station (and reference) %s%s", c01IPStr(o.Client.IP), c01IPStr(o.Station.IP), ad)
 			case !sc && cr:
-				add("ip:hkdf:station!=client", "station selects %s, client (and reference) %s", c01IPStr(o.Station.IP), c01IPStr(o.Client.IP))
+				add("ip:hkdf:station!=client"+as, "station selects %s, client (and reference) %s%s", c01IPStr(o.Station.IP), c01IPStr(o.Client.IP), ad)
 			case !sc:
-				add("ip:hkdf:all-differ", "station %s client %s reference %s", c01IPStr(o.Station.IP), c01IPStr(o.Client.IP), c01IPStr(o.Ref.IP))
+				add("ip:hkdf:all-differ"+as, "station %s client %s reference %s%s", c01IPStr(o.Station.IP), c01IPStr(o.Client.IP), c01IPStr(o.Ref.IP), ad)
 			}
 			if o.Client.Rand != o.Ref.Rand {
 				add("randflag:client!=ref", "client phantom SupportRandomPort=%v, selected group says %v", o.Client.Rand, o.Ref.Rand)
 			}
 		} else if !sc {
-			add("ip:legacy:station!=client", "libver %d frozen client selects %s, station %s", c.LibVer, c01IPStr(o.Client.IP), c01IPStr(o.Station.IP))
+			add("ip:legacy:station!=client"+as, "libver %d frozen client selects %s, station %s%s", c.LibVer, c01IPStr(o.Client.IP), c01IPStr(o.Station.IP), ad)
 		}
 	}
 
 	// port ------------------------------------------------------------------------------------------
+	pk := "port:" + c.Transport
+	if m := c.bidiMode(); m != "" {
+		pk += ":" + m
+	}
 	if o.Ref.Port >= 0 && o.Station.Port != o.Ref.Port {
 		if o.Client.Port >= 0 && o.Client.Port == o.Station.Port {
-			add("port:"+c.Transport+":both!=ref", "station and client use port %d, published rule gives %d", o.Station.Port, o.Ref.Port)
+			add(pk+":both!=ref", "station and client use port %d, published rule gives %d%s", o.Station.Port, o.Ref.Port, c.bidiDesc())
 		} else {
-			add("port:"+c.Transport+":station!=ref", "station port %d, published rule gives %d (client %d)", o.Station.Port, o.Ref.Port, o.Client.Port)
+			add(pk+":station!=ref", "station port %d, published rule gives %d (client %d)%s", o.Station.Port, o.Ref.Port, o.Client.Port, c.bidiDesc())
 		}
 	} else if o.Client.Port >= 0 && o.Client.Port != o.Station.Port {
-		add("port:"+c.Transport+":client!=station", "client dials port %d, station expects %d (reference %d)", o.Client.Port, o.Station.Port, o.Ref.Port)
+		add(pk+":client!=station", "client dials port %d, station expects %d (reference %d)%s", o.Client.Port, o.Station.Port, o.Ref.Port, c.bidiDesc())
+	}
+	if c.Bidi != nil {
+		classes = append(classes, c01BidiClasses(c, era == "hkdf" && o.Ref.Rand)...)
+		if o.NoLibPort {
+			classes = append(classes, "bidi:unchecked-prefix-no-library-port")
+		}
 	}
 	if c.LibVer < 3 {
 		classes = append(classes, "port:refused-by-libver")
-	} else if !c.asked() {
+	} else if !c.effAsked() {
 		classes = append(classes, "port:not-asked")
 	} else if era == "hkdf" && !o.Ref.Rand {
 		classes = append(classes, "port:refused-by-subnet")
@@ -875,7 +951,7 @@ func c01CheckFlight(env *c01Env, c *c01Case, o *c01Out) (key, msg string) {
 			return "ident:min:client!=station", fmt.Sprintf("client sends tag %x, station expects %x", o.Flight, []byte(o.Station.Ident))
 		}
 	case c01ref.Prefix:
-		sp := c01ref.Prefixes[c.prefixID()]
+		sp := c01ref.Prefixes[c.effPrefixID()]
 		if len(o.Flight) != len(sp.Bytes)+64 || !bytes.HasPrefix(o.Flight, sp.Bytes) {
 			return "ident:prefix:client-flight-shape", fmt.Sprintf("client first flight %x is not prefix %q followed by a 64-byte obfuscated tag", o.Flight, sp.Bytes)
 		}
